@@ -90,12 +90,75 @@ def desugar_try(mirj):
     return n
 
 
+RES_BRANCH = "<core::result::Result<T, E> as core::ops::try_trait::Try>::branch"
+
+
+def desugar_try_result(mirj):
+    """`x?` on a Result: the match on `Try::branch(x)` becomes the match on x itself (Ok = Continue, Err = Break); the
+    residual handed to `from_residual` is rebuilt as `Err((x as Err).0)`, the conversion call itself stays.
+    In place; returns the number of sites."""
+    if not mirj:
+        return 0
+    blocks = mirj["blocks"]
+    n = 0
+    for blk in blocks:
+        t = blk["term"]
+        if t["k"] != "call" or _callee(t) != RES_BRANCH or not t.get("args") or t.get("target") is None:
+            continue
+        a = t["args"][0]
+        if a.get("k") not in ("move", "copy") or t["dest"]["proj"]:
+            continue
+        T = t["dest"]["local"]
+        xplace = {"local": a["place"]["local"], "proj": copy.deepcopy(a["place"]["proj"]), "ty": a["place"].get("ty")}
+        okt, errt = _res_inner(xplace.get("ty"))
+        found = False
+        for b2 in blocks:
+            for st in b2["stmts"]:
+                if st["k"] != "assign":
+                    continue
+                rv = st["rv"]
+                if rv["k"] == "discriminant" and rv["place"]["local"] == T and not rv["place"]["proj"]:
+                    rv["place"] = copy.deepcopy(xplace)
+                    found = True
+                if rv["k"] == "use" and rv["op"].get("k") in ("copy", "move") and rv["op"]["place"]["local"] == T:
+                    pr = rv["op"]["place"]["proj"]
+                    if len(pr) == 2 and pr[0].get("k") == "downcast" and pr[0].get("variant") == "Break" and pr[1].get("k") == "field":
+                        st["rv"] = {"k": "aggregate", "agg": "adt", "adt": "core::result::Result", "variant": "Err", "vi": 1, "args": ["core::convert::Infallible", errt],
+                                    "fields": [{"name": "0", "op": {"k": "move", "place": {"local": xplace["local"], "proj": copy.deepcopy(xplace["proj"]) +
+                                                                                    [{"k": "downcast", "variant": "Err", "i": 1}, {"k": "field", "i": 0, "name": "0", "ty": errt}], "ty": errt}}}]}
+        if not found:
+            continue
+
+        def rw(node):
+            if isinstance(node, dict):
+                if "local" in node and "proj" in node and node["local"] == T and isinstance(node["proj"], list):
+                    pr = node["proj"]
+                    if len(pr) >= 2 and pr[0].get("k") == "downcast" and pr[0].get("variant") == "Continue" and pr[1].get("k") == "field":
+                        node["local"] = xplace["local"]
+                        node["proj"] = copy.deepcopy(xplace["proj"]) + [{"k": "downcast", "variant": "Ok", "i": 0}] + pr[1:]
+                    return
+                for v in node.values():
+                    rw(v)
+            elif isinstance(node, list):
+                for v in node:
+                    rw(v)
+
+        for b2 in blocks:
+            rw(b2["stmts"])
+            rw({k: v for k, v in b2["term"].items() if k != "func"})
+        blk["term"] = {"k": "goto", "target": t["target"], "loc": t.get("loc"), "desugared": "?"}
+        n += 1
+    return n
+
+
 def apply(facts):
     """desugar every body of a fact base in place; returns statistics"""
-    stats = {"try": 0, "checked_split": 0, "dup_join": 0}
+    stats = {"try": 0, "checked_split": 0, "dup_join": 0, "swap_local": 0}
     for r in list(facts["fns"]) + list(facts.get("built", [])):
+        stats["swap_local"] += swaps_with_local(r.get("mir"))
         stats["checked_split"] += checked_splits(r.get("mir"))
         stats["try"] += desugar_try(r.get("mir"))
+        stats["try"] += desugar_try_result(r.get("mir"))
         stats["dup_join"] += dup_return_joins(r.get("mir"))
     return stats
 
@@ -113,7 +176,33 @@ COMBINATORS = {
     "core::option::Option::is_some_and": "is_some_and",
     "core::bool::<impl bool>::then": "then",
     "<bool>::then": "then",
+    "core::result::Result::map": "r_map",
+    "core::result::Result::and_then": "r_and_then",
+    "core::result::Result::map_err": "r_map_err",
+    "core::result::Result::or_else": "r_or_else",
+    "core::result::Result::unwrap_or_else": "r_unwrap_or_else",
 }
+
+
+def _res_inner(ty):
+    ty = ty or ""
+    p = "core::result::Result<"
+    if not (ty.startswith(p) and ty.endswith(">")):
+        return "?", "?"
+    body, depth = ty[len(p):-1], 0
+    for i, ch in enumerate(body):
+        if ch in "<([":
+            depth += 1
+        elif ch in ">)]":
+            depth -= 1
+        elif ch == "," and depth == 0:
+            return body[:i].strip(), body[i + 1:].strip()
+    return body, "?"
+
+
+def _res(variant, tys, op):
+    return {"k": "aggregate", "agg": "adt", "adt": "core::result::Result", "variant": variant, "vi": 0 if variant == "Ok" else 1, "args": list(tys),
+            "fields": [{"name": "0", "op": op}]}
 
 
 def _opt_inner(ty):
@@ -192,6 +281,53 @@ def _expand(prog, rec, b, kind, h):
         calls.append(bt)
         bf = add_block([{"k": "assign", "place": copy.deepcopy(dest), "loc": loc, "rv": _none(inner)}], dict(goto_tgt))
         blk["term"] = {"k": "switch", "discr": x_op, "targets": [["0", bf]], "otherwise": bt, "loc": loc, "desugared": "then"}
+        return calls
+    if kind.startswith("r_"):
+        # Result-valued receiver: Ok = 0, Err = 1
+        if x_op.get("k") not in ("move", "copy"):
+            return None
+        xplace = x_op["place"]
+        okt, errt = _res_inner(xplace.get("ty"))
+        dokt, derrt = _res_inner(dest.get("ty"))
+        p_ok = {"local": xplace["local"], "proj": copy.deepcopy(xplace["proj"]) + [{"k": "downcast", "variant": "Ok", "i": 0}, {"k": "field", "i": 0, "name": "0", "ty": okt}], "ty": okt}
+        p_err = {"local": xplace["local"], "proj": copy.deepcopy(xplace["proj"]) + [{"k": "downcast", "variant": "Err", "i": 1}, {"k": "field", "i": 0, "name": "0", "ty": errt}], "ty": errt}
+        d = _new_local(m, "isize")
+        blk["stmts"].append({"k": "assign", "place": {"local": d, "proj": [], "ty": "isize"}, "loc": loc, "rv": {"k": "discriminant", "place": copy.deepcopy(xplace)}})
+        unreach = add_block([], {"k": "unreachable", "loc": loc})
+
+        def passthrough(variant, payload):
+            if kind == "r_unwrap_or_else":
+                rv = {"k": "use", "op": {"k": "move", "place": payload}}
+            else:
+                rv = _res(variant, (dokt, derrt), {"k": "move", "place": payload})
+            return add_block([{"k": "assign", "place": copy.deepcopy(dest), "loc": loc, "rv": rv}], dict(goto_tgt))
+
+        def through_closure(payload, wrap):
+            pre = []
+            if wrap is None:
+                call = _closure_call(h, env_local, env_ty, [{"k": "move", "place": payload}], copy.deepcopy(dest), tgt, unwind, loc, m, pre)
+                bcall = add_block(pre, call)
+            else:
+                qt = dokt if wrap == "Ok" else derrt
+                q = _new_local(m, qt)
+                after = add_block([{"k": "assign", "place": copy.deepcopy(dest), "loc": loc, "rv": _res(wrap, (dokt, derrt), {"k": "move", "place": {"local": q, "proj": [], "ty": qt}})}], dict(goto_tgt))
+                call = _closure_call(h, env_local, env_ty, [{"k": "move", "place": payload}], {"local": q, "proj": [], "ty": qt}, after, unwind, loc, m, pre)
+                bcall = add_block(pre, call)
+            calls.append(bcall)
+            return bcall
+
+        if kind == "r_map":
+            b_ok, b_err = through_closure(p_ok, "Ok"), passthrough("Err", p_err)
+        elif kind == "r_and_then":
+            b_ok, b_err = through_closure(p_ok, None), passthrough("Err", p_err)
+        elif kind == "r_map_err":
+            b_ok, b_err = passthrough("Ok", p_ok), through_closure(p_err, "Err")
+        elif kind in ("r_or_else", "r_unwrap_or_else"):
+            b_ok, b_err = passthrough("Ok", p_ok), through_closure(p_err, None)
+        else:
+            return None
+        blk["term"] = {"k": "switch", "discr": {"k": "move", "place": {"local": d, "proj": [], "ty": "isize"}}, "targets": [["0", b_ok], ["1", b_err]], "otherwise": unreach,
+                       "loc": loc, "desugared": kind}
         return calls
     # Option-valued receiver
     if x_op.get("k") not in ("move", "copy"):
@@ -327,8 +463,9 @@ CHECKED_SPLITS = {"<[T]>::split_at_checked": "<[T]>::split_at", "<[T]>::split_at
 
 def _ext_fn(path, targs):
     name = path.split("::")[-1]
+    short = path if path.startswith("<") else name  # the driver's short form: free functions by name, inherent methods by `<Ty>::name`
     return {"k": "const", "ty": "fn{%s}" % path, "disp": path,
-            "fn": {"path": path, "short": path, "krate": "core", "name": name, "local": False, "args": list(targs), "rkind": "item", "rpath": path, "rshort": path,
+            "fn": {"path": path, "short": short, "krate": "core", "name": name, "local": False, "args": list(targs), "rkind": "item", "rpath": path, "rshort": short,
                    "rkrate": "core", "rlocal": False, "rargs": list(targs), "preds": []}}
 
 
@@ -385,16 +522,28 @@ def checked_splits(mirj):
 
 def _known_variant(stmts, local):
     """variant index of the last assignment to `local` in stmts if it is an Option/enum aggregate, else None"""
-    for st in reversed(stmts):
-        if st["k"] == "assign" and st["place"]["local"] == local:
-            if st["place"]["proj"]:
+    upto = len(stmts)
+    for _ in range(4):  # follow plain moves/copies of the value within the block
+        hit = None
+        for k in range(upto - 1, -1, -1):
+            st = stmts[k]
+            if st["k"] == "setdiscr" and st["place"]["local"] == local:
                 return None
-            rv = st["rv"]
-            if rv["k"] == "aggregate" and rv.get("agg") == "adt" and "vi" in rv:
-                return int(rv["vi"])
+            if st["k"] == "assign" and st["place"]["local"] == local:
+                hit = (k, st)
+                break
+        if hit is None:
             return None
-        if st["k"] == "setdiscr" and st["place"]["local"] == local:
+        k, st = hit
+        if st["place"]["proj"]:
             return None
+        rv = st["rv"]
+        if rv["k"] == "aggregate" and rv.get("agg") == "adt" and "vi" in rv:
+            return int(rv["vi"])
+        if rv["k"] == "use" and rv["op"].get("k") in ("move", "copy") and not rv["op"]["place"]["proj"]:
+            local, upto = rv["op"]["place"]["local"], k
+            continue
+        return None
     return None
 
 
@@ -442,6 +591,7 @@ def thread_jumps(mirj):
 
 
 def thread_all(prog):
+    """jump threading and duplication of small forwarding joins, on every body of the program"""
     from . import mir
 
     total = 0
@@ -450,7 +600,12 @@ def thread_all(prog):
         if not f.has_mir:
             continue
         rec = copy.deepcopy(f.rec)
-        k = thread_jumps(rec["mir"])
+        k = 0
+        for _ in range(4):
+            k1 = thread_jumps(rec["mir"]) + dup_small_joins(rec["mir"])
+            k += k1
+            if not k1:
+                break
         if k:
             prog.fns[short] = mir.Fn(rec, prog)
             total += k
@@ -470,6 +625,115 @@ def _locals_read(node, acc):
     elif isinstance(node, list):
         for v in node:
             _locals_read(v, acc)
+
+
+def _reach(blocks, start):
+    seen, st = set(), [start]
+    while st:
+        x = st.pop()
+        t = blocks[x]["term"]
+        succ = []
+        if t["k"] == "goto":
+            succ = [t["target"]]
+        elif t["k"] == "switch":
+            succ = [bb for _, bb in t["targets"]] + [t["otherwise"]]
+        else:
+            succ = [v for v in (t.get("target"), t.get("unwind"), t.get("drop")) if isinstance(v, int) and not isinstance(v, bool)]
+        for s in succ:
+            if s not in seen:
+                seen.add(s)
+                st.append(s)
+    return seen
+
+
+def dup_small_joins(mirj):
+    """A join block with a handful of pure statements (moves, copies, discriminant reads, aggregates, comparisons) that
+    only forwards what its predecessors computed — `dest = move tmp; goto`, or just `switch(flag)` — is copied into the
+    predecessors that reach it by `goto`. Then a flag assigned `false` on one path and a comparison on the other is
+    tested where it is assigned (`let ok = a && b; if ok {..}` reads like `if a && b {..}`), and a helper inlined by
+    rules/inline.py hands its result to the caller's test without a join in between. Blocks on a cycle are left alone.
+    In place; returns the number of copies made."""
+    if not mirj:
+        return 0
+    blocks = mirj["blocks"]
+    n = 0
+    for _ in range(6):
+        changed = False
+        for j, J in enumerate(blocks):
+            if J.get("cleanup") or J["term"]["k"] not in ("goto", "switch", "return"):
+                continue
+            real = [s for s in J["stmts"] if s["k"] not in ("storagelive", "storagedead")]
+            if len(real) > 6 or any(s["k"] != "assign" or s["rv"]["k"] not in ("use", "aggregate", "ref", "rawptr") or
+                                    any(p.get("k") == "deref" for p in s["place"]["proj"]) for s in real):
+                continue
+            if J["term"]["k"] == "goto" and not real:
+                continue  # an empty forwarding block: nothing to gain
+            preds = [p for p, P in enumerate(blocks) if p != j and P["term"]["k"] == "goto" and P["term"]["target"] == j and not P.get("cleanup")]
+            others = [p for p, P in enumerate(blocks) if p != j and p not in preds and any(
+                x == j for x in ([P["term"].get("target"), P["term"].get("otherwise"), P["term"].get("unwind"), P["term"].get("drop")] + [bb for _, bb in P["term"].get("targets", [])]))]
+            if len(preds) < 2 or others or j == 0:
+                continue
+            reads = set()
+            for s in real:
+                _locals_read(s["rv"], reads)
+            if J["term"]["k"] == "switch":
+                _locals_read(J["term"]["discr"], reads)
+            assigned = set()
+            for p in preds:
+                for s in blocks[p]["stmts"]:
+                    if s["k"] == "assign" and not s["place"]["proj"]:
+                        assigned.add(s["place"]["local"])
+            for s in real:
+                if not s["place"]["proj"]:
+                    assigned.add(s["place"]["local"])
+            if not (reads & assigned):
+                continue  # nothing the predecessors decided flows through this block
+            if J["term"]["k"] == "switch":
+                # only a *flag*: in every predecessor the switched local is (through plain copies) a constant or a freshly
+                # computed comparison; a test of a joined value is better left after the join, where its outcome is a fact
+                # about the joined value
+                d_ = J["term"]["discr"]
+                if d_.get("k") not in ("move", "copy") or d_["place"]["proj"]:
+                    continue
+                def _flag_in(stmts, local):
+                    upto = len(stmts)
+                    for _ in range(5):
+                        hit = None
+                        for k_ in range(upto - 1, -1, -1):
+                            s_ = stmts[k_]
+                            if s_["k"] == "assign" and s_["place"]["local"] == local and not s_["place"]["proj"]:
+                                hit = (k_, s_)
+                                break
+                        if hit is None:
+                            return False
+                        k_, s_ = hit
+                        rv_ = s_["rv"]
+                        if rv_["k"] == "use" and rv_["op"].get("k") == "const":
+                            return True
+                        if rv_["k"] == "binop" and rv_["op"] in ("Eq", "Ne", "Lt", "Le", "Gt", "Ge"):
+                            return True
+                        if rv_["k"] == "unop" and rv_["op"] == "Not":
+                            return True
+                        if rv_["k"] == "use" and rv_["op"].get("k") in ("move", "copy") and not rv_["op"]["place"]["proj"]:
+                            local, upto = rv_["op"]["place"]["local"], k_
+                            continue
+                        return False
+                    return False
+                is_bool = d_["place"].get("ty") == "bool" or mirj["locals"][d_["place"]["local"]].get("ty") == "bool"
+                if not is_bool and not all(_flag_in(blocks[p]["stmts"] + J["stmts"], d_["place"]["local"]) for p in preds):
+                    continue  # (a bool flag tested here was computed before the join: J itself computes nothing)
+            rj = _reach(blocks, j)
+            if j in rj or any(p in rj for p in preds):
+                continue  # on a cycle
+            for p in preds:
+                blocks[p]["stmts"].extend(copy.deepcopy(J["stmts"]))
+                blocks[p]["term"] = copy.deepcopy(J["term"])
+                blocks[p]["term"]["desugared"] = "dup-join"
+                n += 1
+            changed = True
+        if not changed:
+            break
+    return n
 
 
 def dup_return_joins(mirj):
@@ -509,5 +773,64 @@ def dup_return_joins(mirj):
             blocks[p]["stmts"].extend(copy.deepcopy(J["stmts"]))
             blocks[p]["term"] = copy.deepcopy(J["term"])
             blocks[p]["term"]["desugared"] = "dup-join"
+        n += 1
+    return n
+
+
+# --------------------------------------------------------------------------------------------------
+# mem::swap(place, &mut local)  ==  local = mem::replace(place, local)
+# --------------------------------------------------------------------------------------------------
+
+def _ref_of_local(stmts, ptr_local):
+    """if ptr_local was assigned `&mut L` (L a bare local, possibly through one reborrow) in these statements, return (L, ty)"""
+    cur = ptr_local
+    for _ in range(3):
+        src = None
+        for st in reversed(stmts):
+            if st["k"] == "assign" and st["place"]["local"] == cur and not st["place"]["proj"]:
+                src = st
+                break
+        if src is None or src["rv"]["k"] != "ref" or not src["rv"].get("mut"):
+            return None
+        pl = src["rv"]["place"]
+        if not pl["proj"]:
+            return pl["local"], pl.get("ty")
+        if [p["k"] for p in pl["proj"]] == ["deref"]:
+            cur = pl["local"]
+            continue
+        return None
+    return None
+
+
+def swaps_with_local(mirj):
+    """`mem::swap(p, &mut x)` with x a local is `x = mem::replace(p, x)`: the ownership rules follow values through
+    mem::replace, not through a `&mut` to a local. In place; returns the number of sites."""
+    if not mirj:
+        return 0
+    n = 0
+    for bi in range(len(mirj["blocks"])):
+        blk = mirj["blocks"][bi]
+        t = blk["term"]
+        if t["k"] != "call" or _callee(t) != "core::mem::swap" or len(t.get("args", [])) != 2 or t.get("target") is None:
+            continue
+        a, b = t["args"]
+        if a.get("k") not in ("move", "copy") or b.get("k") not in ("move", "copy") or a["place"]["proj"] or b["place"]["proj"]:
+            continue
+        la, lb = _ref_of_local(blk["stmts"], a["place"]["local"]), _ref_of_local(blk["stmts"], b["place"]["local"])
+        if (la is None) == (lb is None):
+            continue
+        ptr_op, (L, Lty) = (a, lb) if lb is not None else (b, la)
+        Lty = Lty or mirj["locals"][L]["ty"]
+        tmp = _new_local(mirj, Lty)
+        loc = t.get("loc")
+        targs = ((t.get("func") or {}).get("fn") or {}).get("rargs") or [Lty]
+        mirj["blocks"].append({"cleanup": bool(blk.get("cleanup")),
+                               "stmts": [{"k": "assign", "place": {"local": L, "proj": [], "ty": Lty}, "loc": loc,
+                                          "rv": {"k": "use", "op": {"k": "move", "place": {"local": tmp, "proj": [], "ty": Lty}}}}],
+                               "term": {"k": "goto", "target": t["target"], "loc": loc}})
+        after = len(mirj["blocks"]) - 1
+        blk["term"] = {"k": "call", "func": _ext_fn("core::mem::replace", targs), "args": [copy.deepcopy(ptr_op), {"k": "move", "place": {"local": L, "proj": [], "ty": Lty}}],
+                       "dest": {"local": tmp, "proj": [], "ty": Lty}, "arg_drop_impls": t.get("arg_drop_impls", []), "arg_user_drop": t.get("arg_user_drop", False),
+                       "target": after, "unwind": t.get("unwind", "continue"), "loc": loc, "desugared": "swap-with-local"}
         n += 1
     return n
